@@ -20,7 +20,13 @@ import (
 
 // Driver for refcount.RefCount (C08, C09, C10).
 //
-// Values are ints: resolver call n returns the value n (0 is the empty value) or the error e<n>.
+// Values are ints: resolver call n returns the value n (0 is the empty value) or the error e<n>;
+// scenario fields make one call return the zero value (`zerocall`) or a value EQUAL to the one of
+// the previous value-returning call (`samecall`: a resolver handing out a singleton). The `leave`
+// event tells the monitor the raw value of the call (`raw`); every value the library hands out
+// (callbacks, Wait/Resolve returns, Access callback argument, target container) is logged RAW,
+// as observed: which generation(s) a raw value can stand for is decided by the monitor (RefCountP),
+// never guessed here.
 // The resolver, the release funcs, the reference callbacks, the released callbacks and the Access
 // callbacks are owned by the harness:
 //
@@ -67,9 +73,15 @@ type rcScenario struct {
 	MaxRes  int      `json:"maxres"` // bound of the X spec (not enforced by the driver)
 	// >0: the value of that resolver call (if it resolves to a value) is the zero value of T. A zero
 	// value handed to a callback that says "resolved, no error", returned by Wait/Resolve or passed to
-	// an Access callback is unambiguously that call's value (one such call per run); the target
-	// container cannot tell it from "empty" (the monitor is told through `zero` on the leave event).
+	// an Access callback is a resolved value (of a call with raw value 0); the target container cannot
+	// tell it from "empty" (the monitor is told through `raw` = 0 / `zero` on the leave event).
 	ZeroCall int `json:"zerocall"`
+	// >0: that resolver call, if it returns a value, returns the raw value of the latest
+	// (highest-numbered) earlier call that has returned a value: a new generation whose value
+	// compares equal to an earlier one (equal to the zero value if that was the zero call). Nothing
+	// changes if there is no such earlier call. The schedules of the X spec are replayed unchanged
+	// (RefCount.tla, constant SameCall).
+	SameCall int `json:"samecall"`
 }
 
 type rcErr struct{ n int }
@@ -87,6 +99,8 @@ type rcRes struct {
 	released func()
 	active   bool
 	nOut     int
+	isVal    bool // the call has returned a value
+	raw      int  // ... this one
 }
 
 type rcClient struct {
@@ -117,8 +131,6 @@ type rcDriver struct {
 	ctxs               []context.Context
 	cancels            []context.CancelFunc
 	wantRoot, rootDone bool
-	valCall            map[int]int // value -> latest resolver call that returned it (values may repeat: "valsame")
-	lastVal            int
 	ctl                *sched.Actor
 	nres               int
 	res                map[int]*rcRes
@@ -154,6 +166,9 @@ func genRefcount(x *sched.Exec) rcScenario {
 	sc.Outs = [][]string{{"val", "err"}, {"val", "valnr", "err", "errrel"}, {"val"}, {"val", "errrel"}}[r.Intn(4)]
 	if r.Intn(3) == 0 {
 		sc.ZeroCall = 1 + r.Intn(3)
+	}
+	if r.Intn(3) == 0 {
+		sc.SameCall = 2 + r.Intn(3)
 	}
 	n := 2 + r.Intn(3)
 	consumers := r.Intn(3) != 0
@@ -260,60 +275,60 @@ func (d *rcDriver) resolver(ctx context.Context, released func()) (int, func(), 
 	rs.active = false
 	rs.park = nil
 	d.mu.Unlock()
+	// ("valsame": outcome with the effect of `samecall` for this call; not offered by the generators,
+	// the X spec does not know it -- experiments only)
 	withRel := out == "val" || out == "errrel" || out == "valsame"
 	isVal := out == "val" || out == "valnr" || out == "valsame"
 	kind := "err"
 	if isVal {
 		kind = "val"
 	}
-	zero := isVal && n == d.sc.ZeroCall
-	d.x.Log(trace.E{"ev": "leave", "n": n, "out": kind, "rel": withRel, "ctxdone": ctx.Err() != nil, "zero": zero})
+	rv := 0
+	if isVal {
+		rv = n
+		if n == d.sc.ZeroCall {
+			rv = 0
+		}
+		if n == d.sc.SameCall || out == "valsame" {
+			// the raw value of the latest earlier call that has returned a value (RefCount.tla: RawFor)
+			d.mu.Lock()
+			for m := n - 1; m >= 1; m-- {
+				if p := d.res[m]; p != nil && p.isVal {
+					rv = p.raw
+					break
+				}
+			}
+			d.mu.Unlock()
+		}
+		d.mu.Lock()
+		rs.isVal, rs.raw = true, rv
+		d.mu.Unlock()
+	}
+	d.x.Log(trace.E{"ev": "leave", "n": n, "out": kind, "rel": withRel, "ctxdone": ctx.Err() != nil, "zero": isVal && rv == 0, "raw": rv})
 	var rel func()
 	if withRel {
 		rel = func() {
-			d.x.Log(trace.E{"ev": "rel", "n": n, "tgt": d.cn(d.tgt.GetValue())})
+			d.x.Log(trace.E{"ev": "rel", "n": n, "tgt": d.tgt.GetValue()})
 		}
 	}
 	if isVal {
-		// "valsame": a NEW resolution whose value compares equal to the previous one. NOT offered by the
-		// scenario generators: the monitor identifies a value by its resolver call, and a consumer that
-		// still holds an older generation's (equal) value cannot be attributed (tried; AccessWrongVal
-		// false alarms) -- kept for experiments only.
-		if zero {
-			return 0, rel, nil
-		}
-		rv := n
-		d.mu.Lock()
-		if out == "valsame" && d.lastVal != 0 && d.nActive() == 0 {
-			rv = d.lastVal
-		}
-		d.valCall[rv] = n
-		d.lastVal = rv
-		d.mu.Unlock()
 		return rv, rel, nil
 	}
 	return 0, rel, &rcErr{n}
 }
 
-// cn translates a value handed out by the library into the resolver call that produced it.
-func (d *rcDriver) cn(v int) int {
-	if v == 0 {
-		return 0
-	}
+// genOf picks the resolver call whose released() handle a callback of kind "rel" calls for the raw
+// value it was given: the latest call that has returned that value (an input choice of the harness,
+// logged as `relcall{n}`: the monitor is told which handle was called, whatever was picked).
+func (d *rcDriver) genOf(v int) int {
 	d.mu.Lock()
 	defer d.mu.Unlock()
-	if n, ok := d.valCall[v]; ok {
-		return n
+	for m := d.nres; m >= 1; m-- {
+		if p := d.res[m]; p != nil && p.isVal && p.raw == v {
+			return m
+		}
 	}
-	return v
-}
-
-// cnz is cn for a value that certainly is a resolved value (see rcScenario.ZeroCall).
-func (d *rcDriver) cnz(v int) int {
-	if v == 0 && d.sc.ZeroCall > 0 {
-		return d.sc.ZeroCall
-	}
-	return d.cn(v)
+	return 0
 }
 
 // refCallback builds the callback of a plain reference.
@@ -323,11 +338,6 @@ func (d *rcDriver) refCallback(ref int, kind string) func(bool, int, error) {
 	}
 	fired := false
 	return func(resolved bool, val int, err error) {
-		if resolved && err == nil {
-			val = d.cnz(val)
-		} else {
-			val = d.cn(val)
-		}
 		_, en := errID(err)
 		if err != nil && en == 0 {
 			en = -2
@@ -335,9 +345,9 @@ func (d *rcDriver) refCallback(ref int, kind string) func(bool, int, error) {
 		d.x.Log(trace.E{"ev": "cb", "ref": ref, "res": resolved, "val": val, "err": en})
 		if kind == "rel" && resolved && !fired {
 			fired = true
-			n := val
-			if n == 0 {
-				n = en
+			n := en
+			if err == nil {
+				n = d.genOf(val)
 			}
 			d.mu.Lock()
 			rs := d.res[n]
@@ -463,7 +473,7 @@ func (d *rcDriver) opFunc(c *rcClient, pi int, op rcOp) sched.Op {
 					return
 				}
 				d.register(c, pi, id, rel)
-				x.Log(trace.E{"ev": "ret", "id": id, "res": "ok", "val": d.cnz(val), "err": 0, "actor": name})
+				x.Log(trace.E{"ev": "ret", "id": id, "res": "ok", "val": val, "err": 0, "actor": name})
 			})
 		}}
 	case "access":
@@ -480,7 +490,7 @@ func (d *rcDriver) opFunc(c *rcClient, pi int, op rcOp) sched.Op {
 				err := d.rc.Access(ctx, func(cctx context.Context, val int) error {
 					k++
 					kk := k
-					x.Log(trace.E{"ev": "cbenter", "id": id, "k": kk, "val": d.cnz(val)})
+					x.Log(trace.E{"ev": "cbenter", "id": id, "k": kk, "val": val})
 					d.mu.Lock()
 					c.incb, c.cbctx = true, cctx
 					d.mu.Unlock()
@@ -620,7 +630,7 @@ func (d *rcDriver) observe() {
 			te = -2
 		}
 	}
-	x.Log(trace.E{"ev": "quiet", "tgt": d.cn(d.tgt.GetValue()), "tgterr": te, "act": act, "blk": blk, "incb": incb, "cbdone": cbdone, "open": open})
+	x.Log(trace.E{"ev": "quiet", "tgt": d.tgt.GetValue(), "tgterr": te, "act": act, "blk": blk, "incb": incb, "cbdone": cbdone, "open": open})
 	d.lastQ = x.T.Seq()
 }
 
@@ -643,7 +653,6 @@ func (d *rcDriver) Run(x *sched.Exec, raw json.RawMessage) json.RawMessage {
 	out, _ := json.Marshal(d.sc)
 	d.ctl = x.Self()
 	d.res = map[int]*rcRes{}
-	d.valCall = map[int]int{}
 	d.byName = map[string]*rcClient{}
 	d.dropped = map[int]bool{}
 	d.ctxs = []context.Context{nil}
